@@ -5,6 +5,7 @@ import (
 	"encoding/json"
 	"fmt"
 	"os"
+	"reflect"
 	"sort"
 	"strings"
 	"testing"
@@ -14,6 +15,7 @@ import (
 	"pgregory.net/rapid"
 
 	fundraising "github.com/tendermint/fundraising/x/fundraising/module"
+	"github.com/tendermint/fundraising/x/fundraising/keeper"
 	"github.com/tendermint/fundraising/x/fundraising/types"
 )
 
@@ -230,6 +232,21 @@ func (o *orderHook) BeforeAllowedBidderUpdated(ctx context.Context, id uint64, b
 	return nil
 }
 
+// invokeSetHooks calls the module's wiring function whichever way it takes the keeper (by pointer
+// on the tree as found, by value since the repair of F18), so that the harness builds against both.
+func invokeSetHooks(k *keeper.Keeper, m map[string]types.FundraisingHooks) error {
+	f := reflect.ValueOf(fundraising.InvokeSetHooks)
+	arg := reflect.ValueOf(k)
+	if f.Type().In(0).Kind() != reflect.Ptr {
+		arg = arg.Elem()
+	}
+	out := f.Call([]reflect.Value{arg, reflect.ValueOf(m)})
+	if e, ok := out[0].Interface().(error); ok && e != nil {
+		return e
+	}
+	return nil
+}
+
 // RunC14Hooks checks that the hook dispatch order does not depend on map iteration order.
 func RunC14Hooks(t *testing.T) {
 	const prop = "C14"
@@ -252,7 +269,7 @@ func RunC14Hooks(t *testing.T) {
 			for _, nm := range perm {
 				m[nm] = &orderHook{recorder: recorder{k: k, b: b, calls: &calls, plan: &plan, seen: map[string]int{}, veto: &veto}, name: nm, out: &out}
 			}
-			if err := fundraising.InvokeSetHooks(kk, m); err != nil {
+			if err := invokeSetHooks(kk, m); err != nil {
 				rt.Fatalf("InvokeSetHooks: %v", err)
 			}
 			if err := kk.BeforeAllowedBidderUpdated(b.Branch(), 0, Addrs[0], math.NewInt(1)); err != nil {
